@@ -310,3 +310,63 @@ def c18_corrections(ctx, cls, variant):
             ctx.ensure("identical output on a random image", a.shape == b.shape and a.dtype == b.dtype and bool(np.array_equal(a, b)))
             m1, m2 = corr.correct_metadata({"dimensions": [1.0, 1.0]}), back.correct_metadata({"dimensions": [1.0, 1.0]})
             ctx.ensure("identical declared metadata updates", m1.keys() == m2.keys() and all(np.all(np.asarray(m1[k]) == np.asarray(m2[k])) for k in m1))
+
+
+@ob("C18.corrections_state", kind="B", cases=[dict(cls="DriftCorrection", change=c) for c in ("deactivate", "activate", "roi", "padding", "caller-config", "none")]
+    + [dict(cls="CurvatureCorrection", change=c) for c in ("caller-config", "none")] + [dict(cls="TypeCorrection", change="data_type")],
+    funcs=FUNCS, samples=(1, 2), tol=1e-12,
+    cite="Every correction that supports saving reloads through the generic reader to a correction producing identical output",
+    note="bounded: the file must describe the correction AS IT IS WHEN SAVED - state changed through its public attributes after construction, or a caller-owned config dictionary "
+         "edited after construction, must not make the reloaded object differ from the saved one (after seed C18_e: save() wrote the construction-time dictionary)")
+def c18_corrections_state(ctx, cls, change):
+    rng = np.random.default_rng(ctx.rng.randrange(1 << 30))
+    H, W = 24, 30
+    with tempfile.TemporaryDirectory() as tmp, contextlib.redirect_stdout(io.StringIO()):
+        p = Path(tmp) / "corr.npz"
+        if cls == "DriftCorrection":
+            base = (255 * rng.random((H, W, 3))).astype(np.uint8)
+            cfg = {"active": change != "activate", "roi": [[2, 3], [18, 25]], "padding": 0.1}
+            corr = darsia.DriftCorrection(base, config=cfg)
+            state0 = (corr.active, corr.roi, corr.relative_padding)
+            if change == "deactivate":
+                corr.active = False
+            elif change == "activate":
+                corr.active = True
+            elif change == "roi":
+                corr.roi = (slice(3, 20), slice(2, 22))
+            elif change == "padding":
+                corr.relative_padding = 0.25
+            elif change == "caller-config":
+                cfg["active"] = False
+                cfg["roi"] = [[0, 0], [5, 5]]
+                cfg["padding"] = 0.3
+                ctx.ensure("editing the caller's config dictionary after construction does not change the correction", (corr.active, corr.roi, corr.relative_padding) == state0)
+            corr.save(p)
+            back = darsia.read_correction(p)
+            ctx.ensure("reloaded drift correction has the state the object had when it was saved",
+                       type(back) is type(corr) and back.active == corr.active and back.roi == corr.roi and back.relative_padding == corr.relative_padding
+                       and bool(np.array_equal(back.base, corr.base)))
+            x = np.roll(base, (1, 2), axis=(0, 1))
+            if not corr.active:
+                ctx.ensure("inactive when saved => the reloaded correction is the identity, too", bool(np.array_equal(back.correct_array(x.copy()), x)) and bool(np.array_equal(corr.correct_array(x.copy()), x)))
+        elif cls == "CurvatureCorrection":
+            v = 5e-5
+            cfg = {"bulge": {"horizontal_bulge": v, "vertical_bulge": v / 2, "horizontal_stretch": v / 3, "vertical_stretch": 0.0, "horizontal_center_offset": 1, "vertical_center_offset": -2}}
+            corr = darsia.CurvatureCorrection(config=cfg)
+            img = rng.random((H, W, 3))
+            before = corr.correct_array(img.copy())
+            if change == "caller-config":
+                cfg["bulge"]["horizontal_bulge"] = 10 * v
+                cfg["crop"] = {"pts_src": [[1, 2], [20, 2], [20, 25], [1, 25]], "width": 0.9, "height": 0.5}
+                ctx.ensure("editing the caller's config dictionary after construction does not change the correction", bool(np.array_equal(corr.correct_array(img.copy()), before)))
+            corr.save(p)
+            back = darsia.read_correction(p)
+            ctx.ensure("reloaded curvature correction produces the output of the saved object", bool(np.array_equal(back.correct_array(img.copy()), corr.correct_array(img.copy()))))
+        else:
+            corr = darsia.TypeCorrection(np.float32)
+            corr.data_type = np.uint8
+            corr.save(p)
+            back = darsia.read_correction(p)
+            img = rng.random((H, W, 3))
+            a, b = corr.correct_array(img.copy()), back.correct_array(img.copy())
+            ctx.ensure("reloaded type correction converts like the saved object (data_type changed after construction)", a.dtype == b.dtype and bool(np.array_equal(a, b)))
